@@ -1,4 +1,4 @@
 (* Extraction of the executable model and specification of C06 (ExtrOcamlBasic only). *)
-From MptV Require Import Base.Mem C06.Gen_Types C06.TypesModel C06.RegistrySpec.
+From MptV Require Import Base.Mem C06.Gen_Types C06.TypesModel C06.RegistrySpec C06.TplModel.
 Require Import ExtrOcamlBasic.
-Extraction "c06_model.ml" run srun reg0 sreg0 exec sexec fini_counts.
+Extraction "c06_model.ml" run srun reg0 sreg0 exec sexec fini_counts mtrun strun t0 g_slots.
